@@ -55,6 +55,9 @@ Check(m, e) ==
          IF m.exited THEN "thread_ended_means_ended"
          ELSE IF e.site = "top" /\ m.cause # "none" /\ m.steps + 1 > m.K THEN "ends_in_bounded_steps"
          ELSE IF e.site = "top" /\ e.prod = m.lastProd /\ m.idle >= 1 THEN "never_busy_spins"
+         \* "within bounded time": a thread with nothing to do sleeps for a millisecond, not for ever longer - it must be back
+         \* at the top of its loop well within a second of being let go (the margin is for a loaded machine)
+         ELSE IF "ms" \in DOMAIN e /\ e.ms > 700 THEN "idle_thread_wakes_up_in_bounded_time"
          ELSE ""
     [] e.a = "cb" ->
          IF e.panicked THEN "no_panic"
